@@ -374,6 +374,7 @@ class State:
         self.events = []       # list of dict
         self.uid = 0
         self.excl = {}         # atom key -> set of excluded values
+        self.member = {}       # atom key -> list of values the atom is known to be one of
 
     def fork(self):
         return copy.deepcopy(self)
@@ -387,6 +388,8 @@ class Leaf:
         self.label = list(state.label)
         self.events = list(state.events)
         self.info = info
+        self.member = dict(state.member)
+        self.excl = {k: set(v) for k, v in state.excl.items()}
 
     def fact(self, v_or_key):
         k = v_or_key.key() if isinstance(v_or_key, V) else v_or_key
@@ -572,6 +575,9 @@ class Machine:
             return Agg("tuple", None, None, [self.const_value(st, fr, x) for x in c["v"]])
         if t == "static_ref":
             return Sym("static " + norm(c["path"]))
+        if t == "struct":
+            return Agg("adt", norm(c["path"]), 0, [self.const_value(st, fr, f["value"]) for f in c["fields"]],
+                       [f["name"] for f in c["fields"]])
         if t == "uneval":
             if "value" in c and c["value"].get("t") not in ("other", None):
                 return self.const_value(st, fr, c["value"])
@@ -864,6 +870,7 @@ class Machine:
                     s2.facts[key] = cval
                     s2.label.append((show(v), show(cval)))
                 elif not is_other:
+                    s2.member[key] = list(vals)
                     s2.label.append((show(v), "in %s" % (vals,)))
                 else:
                     s2.excl.setdefault(key, set()).update(arm_vals)
@@ -1005,6 +1012,11 @@ class Machine:
             a, b = strip_ref(args[0]), strip_ref(args[1])
             r = self.binop(st, "Eq", a, b)
             return r
+        if name == "core::slice::<impl [T]>::contains" and len(args) == 2:
+            arr, x = strip_ref(args[0]), strip_ref(args[1])
+            if isinstance(arr, Agg) and arr.kind == "array" and all(isinstance(f, (CharV, Const)) for f in arr.fields) and isinstance(x, (CharV, Const)):
+                return Const(any(f.key() == x.key() for f in arr.fields))
+            return None
         if name.endswith("::ne") and "PartialEq" in name and len(args) == 2:
             return self.binop(st, "Ne", strip_ref(args[0]), strip_ref(args[1]))
         return None
